@@ -28,6 +28,12 @@ pub enum HashSpec {
     Truncate,
     UpperCase,
     Literal(String),
+    /// two neighbouring (different) digits exchanged
+    Swap(u16),
+    /// the same bit changed in two digits (differences that cancel under XOR / sum)
+    DoubleFlip(u16, u16),
+    /// the true hash of another algorithm of the same length, or the true hash reversed
+    Reversed,
 }
 
 #[derive(Clone, Debug, Serialize, Deserialize)]
@@ -90,6 +96,8 @@ fn content_strategy(tier: Tier) -> BoxedStrategy<Vec<u8>> {
     let line = prop::sample::select(vec![
         &b"plain line"[..], b"", b"$NetBSD$", b"$NetBSD: patch-aa,v 1.3 2020/01/01 x Exp $", b"+added", b"-removed", b"$NetBS", b"x $NetBSD y",
         b"--- a.orig", b"+++ a", b"@@ -1 +1 @@", b"$NetBSD", b"# ends with $NetBSD", b"$NetBS$NetBSD", b"NetBSD$", b"\xff$NetBSD\xfe",
+        // the marker in another letter case is not the marker
+        b"$NETBSD$", b"$netbsd: x $", b"+CPPFLAGS+= -I$NETBSDSRCDIR/sys", b"$NetBsD", b"$nETbsd",
     ]);
     prop_oneof![
         1 => Just(vec![]),
@@ -135,6 +143,9 @@ fn hash_spec() -> BoxedStrategy<HashSpec> {
         3 => any::<u16>().prop_map(HashSpec::FlipHexDigit),
         1 => Just(HashSpec::Truncate),
         1 => Just(HashSpec::UpperCase),
+        1 => any::<u16>().prop_map(HashSpec::Swap),
+        1 => (any::<u16>(), any::<u16>()).prop_map(|(a, b)| HashSpec::DoubleFlip(a, b)),
+        1 => Just(HashSpec::Reversed),
         1 => prop::sample::select(vec!["ojnk", "0", "da39a3ee5e6b4b0d3255bfef95601890afd80709"]).prop_map(|s| HashSpec::Literal(s.to_string())),
     ]
     .boxed()
@@ -241,6 +252,28 @@ fn recorded_hash(alg: Alg, basis_content: &[u8], kind: Kind, spec: &HashSpec) ->
         HashSpec::Truncate => h[..h.len() - 1].to_string(),
         HashSpec::UpperCase => h.to_ascii_uppercase(),
         HashSpec::Literal(s) => s.clone(),
+        HashSpec::Swap(p) => {
+            let mut cs: Vec<char> = h.chars().collect();
+            let n = cs.len();
+            let start = idx(*p, n.saturating_sub(1).max(1));
+            if let Some(k) = (0..n.saturating_sub(1)).map(|d| (start + d) % (n - 1)).find(|k| cs[*k] != cs[*k + 1]) {
+                cs.swap(k, k + 1);
+            }
+            cs.into_iter().collect()
+        }
+        HashSpec::DoubleFlip(p, q) => {
+            let mut cs: Vec<char> = h.chars().collect();
+            let n = cs.len();
+            let (i, mut j) = (idx(*p, n), idx(*q, n));
+            if i == j {
+                j = (j + 1) % n;
+            }
+            let flip = |c: char| -> char { char::from_digit(c.to_digit(16).unwrap_or(0) ^ 1, 16).unwrap_or('0') };
+            cs[i] = flip(cs[i]);
+            cs[j] = flip(cs[j]);
+            cs.into_iter().collect()
+        }
+        HashSpec::Reversed => h.chars().rev().collect(),
     }
 }
 
